@@ -62,7 +62,7 @@ class Cfg:
     boost_p: float = 0.4
     pred: object = None  # family predicate (default: unitary qubit gates)
     conf: bool = True  # confusion maps allowed
-    sub_tags: tuple = (0, 0, 0, 1, 1, 2, 3, 4, 5)
+    sub_tags: tuple = (0, 0, 0, 1, 1, 2, 3, 4)
     sub_reps2: bool = True
     sub_kmap: bool = True
     sub_qperm: bool = True
@@ -167,6 +167,9 @@ def _body(draw, cfg: Cfg, dims, depth, max_ops):
         if cfg.tags and kind != "sub":
             o["tag"] = draw(st.sampled_from([0, 0, 0, 0, 1, 1, 2]))
         ops.append(o)
+        if kind == "g" and cfg.meas > 0 and not cfg.terminal_only and len(o["w"]) == 2 and draw(st.integers(0, 9)) < 2:
+            # measure one leg of a two-qubit gate right behind it
+            ops.append({"k": "m", "w": [o["w"][draw(st.integers(0, 1))]], "key": draw(st.integers(0, 2)), "ins": 0, "tag": 0})
         if kind == "m" and cfg.cc > 0 and draw(st.integers(0, 9)) < 4:
             # feed-forward right behind the measurement, preferably on wires the measurement does not touch
             free = [w for w in range(len(dims)) if w not in o["w"] and dims[w] == 2]
